@@ -6,11 +6,17 @@ hand-written model loops (split_loop, unique_loop, bucket_step fold) for all inp
 Shape accepted for a function:
     [docstring]
     <prelude>            argument checks / dispatch on the dynamic type of an argument: NOT
-                         translated; it must be literally the expected statements (ast.dump
-                         equality with the text in PRELUDES), otherwise the translator fails.
-                         Its meaning (e.g. sep_func = `x == sep` / `x in frozenset(sep)` / sep
-                         itself) is an input of the generated function and stays covered by the
-                         correspondence run.
+                         translated.  Its meaning (e.g. sep_func = `x == sep` / `x in
+                         frozenset(sep)` / sep itself) is an INPUT of the generated function and
+                         stays covered by the correspondence run.  What the loop tie needs from it
+                         is checked structurally (fail closed): only if/elif/else, assignments,
+                         one-line `def`s, `raise` and `pass`; it binds only the names listed in
+                         cfg["prelude_may_bind"] (never the loop state, never - except where the
+                         function itself does, bucketize - `src`); it mentions `src` only as a
+                         direct argument of is_iterable / len / type / zip; no yield, return,
+                         loop, try, with, augmented assignment, expression statement.
+                         (PRELUDES keeps the text the models were written from, for the record
+                         and for the self-test.)
     x = <init> ...       initialisation of the loop state
     for v in src: body   the scanner
     <epilogue>           trailing `if c: yield x`, `return`, `return x`
@@ -133,6 +139,7 @@ CFG = {
                   "sep": "noneflag", "maxsplit": "optnat"},
         "gparams": "(sep_func : K -> bool) (sep_is_none maxsplit_is_none : bool) (maxsplit : nat)",
         "gargs": "sep_func sep_is_none maxsplit_is_none maxsplit",
+        "prelude_may_bind": ["maxsplit", "sep", "sep_func"],
         "carried_free": ["sep_func"],      # free names of the loop that the body may re-bind
         "out": "list (list K)", "types": {"sep_func": "K -> bool", "cur_group": "list K", "split_count": "nat"},
     },
@@ -140,6 +147,7 @@ CFG = {
         "params": ["src", "key"], "defaults": ["Constant(value=None)"],
         "kinds": {"key_func": "fun", "seen": "set", "i": "elem", "k": "elem"},
         "gparams": "(key_func : K -> K)", "gargs": "key_func", "carried_free": [],
+        "prelude_may_bind": ["key_func"],
         "out": "list K", "types": {"seen": "list K"},
     },
     "redundant": {
@@ -147,6 +155,7 @@ CFG = {
         "kinds": {"key_func": "fun", "key": "truthyflag", "groups": "static", "seen": "dict_elem",
                   "redundant_order": "list", "redundant_groups": "dict_list", "i": "elem", "k": "elem", "ret": "result"},
         "gparams": "(key_truthy : bool) (key_func : K -> K)", "gargs": "key_truthy key_func", "carried_free": [],
+        "prelude_may_bind": ["key_func"],
         "out": None, "specialize": ("groups", [False, True]),
         "result_type": {False: "list K", True: "list (list K)"},
         "types": {"seen": "pydict K", "redundant_order": "list K", "redundant_groups": "pydict (list K)"},
@@ -158,6 +167,7 @@ CFG = {
                   "val": "elem", "key_of_val": "elem"},
         "gparams": "(key_func value_transform : K -> K) (key_filter_is_none : bool) (key_filter : K -> bool)",
         "gargs": "key_func value_transform key_filter_is_none key_filter", "carried_free": [],
+        "prelude_may_bind": ["key_func", "value_transform", "f", "src"],
         "out": None, "types": {"ret": "pydict (list K)"},
     },
 }
@@ -383,6 +393,52 @@ class _Tr:
         finally:
             self.scope = saved
 
+    # ---------------------------------------------------------------- prelude guard
+    _PURE_ON_SRC = ("is_iterable", "len", "type", "zip")
+
+    def check_prelude(self, stmts):
+        may_bind = set(self.cfg["prelude_may_bind"])
+
+        def check_expr(e):
+            for n in ast.walk(e):
+                if isinstance(n, (ast.Yield, ast.YieldFrom, ast.Await, ast.NamedExpr, ast.Lambda,
+                                  ast.ListComp, ast.SetComp, ast.DictComp, ast.GeneratorExp)):
+                    _fail(n, "unsupported expression in the prelude")
+            # `src` only as a direct argument of a whitelisted pure call
+            ok = set()
+            for n in ast.walk(e):
+                if isinstance(n, ast.Call) and isinstance(n.func, ast.Name) and n.func.id in self._PURE_ON_SRC:
+                    for a in n.args:
+                        if isinstance(a, ast.Name) and a.id == "src":
+                            ok.add(id(a))
+            for n in ast.walk(e):
+                if isinstance(n, ast.Name) and n.id == "src" and id(n) not in ok:
+                    _fail(n, "the prelude uses src other than in is_iterable/len/type/zip")
+
+        def check(ss):
+            for s in ss:
+                if isinstance(s, ast.Pass):
+                    continue
+                if isinstance(s, ast.If):
+                    check_expr(s.test)
+                    check(s.body)
+                    check(s.orelse)
+                elif isinstance(s, ast.Assign):
+                    if not (len(s.targets) == 1 and isinstance(s.targets[0], ast.Name) and s.targets[0].id in may_bind):
+                        _fail(s, "the prelude binds something other than %s" % sorted(may_bind))
+                    check_expr(s.value)
+                elif isinstance(s, ast.FunctionDef):
+                    if s.name not in may_bind or s.decorator_list or len(s.body) != 1 or not isinstance(s.body[0], ast.Return) \
+                            or s.body[0].value is None:
+                        _fail(s, "unexpected def in the prelude")
+                    check_expr(s.body[0].value)
+                elif isinstance(s, ast.Raise):
+                    if s.exc is not None:
+                        check_expr(s.exc)
+                else:
+                    _fail(s, "unsupported statement in the prelude")
+        check(stmts)
+
     # ---------------------------------------------------------------- function
     def function(self, fname, fn):
         cfg = self.cfg
@@ -393,12 +449,14 @@ class _Tr:
         body = list(fn.body)
         if body and isinstance(body[0], ast.Expr) and isinstance(body[0].value, ast.Constant):
             body = body[1:]
-        want = _dump_src(PRELUDES[fname])
-        got = [ast.dump(s) for s in body[:len(want)]]
-        if got != want:
-            k = next((i for i, (x, y) in enumerate(zip(got, want)) if x != y), min(len(got), len(want)))
-            _fail(body[k] if k < len(body) else fn, "the prelude (argument checks / dispatch) is not the expected one")
-        body = body[len(want):]
+        state_kinds = ("list", "nat", "set", "dict", "dict_elem", "dict_list")
+        k = 0
+        while k < len(body) and not (isinstance(body[k], ast.Assign) and len(body[k].targets) == 1
+                                     and isinstance(body[k].targets[0], ast.Name)
+                                     and self.kinds.get(body[k].targets[0].id) in state_kinds):
+            k += 1
+        self.check_prelude(body[:k])
+        body = body[k:]
         # initialisations, the loop, the epilogue
         k = 0
         while k < len(body) and isinstance(body[k], ast.Assign):
@@ -483,7 +541,8 @@ def selftest(repo):
         ("        if maxsplit is not None and split_count >= maxsplit:", "        if maxsplit is not None and split_count > maxsplit:"),
         ("            seen.add(k)\n            yield i", "            yield i"),
         ("        if key_filter is None or key_filter(key_of_val):", "        if key_filter is None:"),
-        ("    if callable(sep):\n        sep_func = sep", "    if not callable(sep):\n        sep_func = sep"),
+        ("    if maxsplit is not None:\n        maxsplit = int(maxsplit)\n", "    if maxsplit is not None:\n        maxsplit = int(maxsplit)\n    src = reversed(list(src))\n"),
+        ("    if callable(sep):\n        sep_func = sep", "    if callable(sep):\n        sep_func = sep\n        cur_group = [sep]"),
         ("                redundant_groups[k] = [seen[k], i]", "                redundant_groups[k] = [i, i]"),
         ("        ret = [redundant_groups[k][1] for k in redundant_order]", "        ret = [redundant_groups[k][0] for k in redundant_order]"),
     ]
